@@ -281,11 +281,11 @@ struct Lossy {
       run.count("fec_gain_checked"); long milli = (long)(ratio * 1000); if (run.stat["max:fec_vs_plc_error_milli"] < milli) run.stat["max:fec_vs_plc_error_milli"] = milli;
       if (getenv("OPSIM_CALIB")) fprintf(stderr, "C09FEC ratio=%.4f events=%ld seed=%llu fms=%d ch=%d lvl=%.4f worse=%.3f\n", ratio, fec_events, (unsigned long long)cur_seed, log.empty() ? 0 : log.back().frame48 / 48, S.enc.L.ch, plc_lvl_err > 0 ? fec_lvl_err / plc_lvl_err : -1.0, (double)fec_worse / fec_events);
       int fms = log.empty() ? 20 : log.back().frame48 / 48;
-      // thresholds per (channels, packet duration) cell, >= 2x the worst of 54 000 calibration sessions (calib/thresholds.json C09.fec_gain):
+      // thresholds per (channels, packet duration) cell, >= 2x the worst of 96 000 calibration sessions (two rounds, the second with the abrupt-onset source and the LBRR gain fix) (calib/thresholds.json C09.fec_gain):
       // the summed-error ratio has a fat tail (a handful of events dominate the sums), the per-event "FEC frame farther from the
       // loss-free frame than the concealed one" fraction is the robust companion
       int cell = (S.enc.L.ch == 2 ? 3 : 0) + (fms <= 20 ? 0 : fms <= 40 ? 1 : 2);
-      static const double ALPHA_CELL[6] = {0.45, 2.05, 0.90, 0.66, 1.50, 2.10}, BETA_CELL[6] = {0.32, 0.45, 0.25, 0.15, 0.39, 0.55};
+      static const double ALPHA_CELL[6] = {0.80, 2.35, 1.80, 0.66, 1.50, 2.10}, BETA_CELL[6] = {0.38, 0.45, 0.41, 0.19, 0.39, 0.55};
       double alpha = ALPHA_CELL[cell], beta = BETA_CELL[cell];
       double worse = (double)fec_worse / fec_events;
       long wm = (long)(worse * 1000); if (run.stat["max:fec_worse_than_plc_fraction_milli"] < wm) run.stat["max:fec_worse_than_plc_fraction_milli"] = wm;
